@@ -68,6 +68,8 @@ ATOMS = {
     "with_multi": dict(codes=["undefined_name"], lines=["with Ctx() as c_{n}, \\", "        undefined_{n} as d_{n}:", "    print(c_{n}, d_{n})"], simple=False),
     "unused_ignore": dict(codes=["unused_ignore"], enable=["unused_ignore"], lines=["print({n})  # static analysis: ignore[undefined_name]"], simple=True, fix=True),
     "many_pos": dict(codes=["too_many_positional_args"], enable=["too_many_positional_args"], lines=["print(takes_many({n}, 2, 3, 4))"], simple=True, fix=True, needs_max_pos=True),
+    "many_pos_ml": dict(codes=["too_many_positional_args"], enable=["too_many_positional_args"], lines=["print(takes_many(", "    {n}, p,", "    3, 4, e=5,", "))"], simple=False, fix=True, needs_max_pos=True),
+    "many_pos_star": dict(codes=[], enable=["too_many_positional_args"], lines=["print(takes_many({n}, *pair, 4))"], simple=True, needs_max_pos=True),
     "bad_format": dict(codes=["bad_format_string"], lines=["print(\"%d %d\" % ({n},))"], simple=True),
     "call_kw": dict(codes=["incompatible_call"], lines=["takes_int({n}, bogus_{n}=1)"], simple=True),
     "elif_cond": dict(codes=["undefined_name"], lines=["if p:", "    print({n})", "elif undefined_{n}:", "    print(p)"], simple=False),
@@ -367,8 +369,6 @@ class Gen:
         with_known = bool(self.opts.get("known_defect_atoms")) and r.chance(self.opts.get("p_known", 0.12))
         self.meta["features"].append("known_defect_inputs" if with_known else "no_known_defect_inputs")
         pool = [a for a in sorted(ATOMS) if a not in KNOWN_DEFECT_ATOMS or with_known]
-        if not self.opts.get("max_pos"):
-            pool = [a for a in pool if not ATOMS[a].get("needs_max_pos")]
         k = r.randint(2, min(7, len(pool)))
         self.enabled_atoms = set(r.sample(pool, k))
         skeletons = [k for k in SKELETONS if with_known or k not in ("semicolon", "one_line_if")]
@@ -380,6 +380,7 @@ class Gen:
             files["mod_%s%d.py" % (chr(97 + i), r.below(90))] = self.module("m%d" % i)
         enable = sorted({c for a in self.meta["atoms"] if a in ATOMS for c in ATOMS[a].get("enable", [])})
         self.meta["enable"] = enable
+        self.meta["extra_args"] = ["--maximum-positional-args", "3"] if any(ATOMS.get(a, {}).get("needs_max_pos") for a in self.meta["atoms"]) else []
         self.meta["enabled_atoms"] = sorted(self.enabled_atoms)
         return files, self.meta
 
